@@ -372,4 +372,262 @@ theorem inv_send {s s' : St} {c sd dst : Addr} {d : Denom} {x : Int} (hI : Inv s
     · show l ≤ ((s.bank.credit lock fee (-x)).credit dst fee x).bal lock fee + ((s.bank.credit lock fee (-x)).credit dst fee x).bal "plock" bond + s.stake "plock" + sumUnb "plock" s.ubds
       rw [hP]; omega
 
+theorem inv_nvDelegate {s s' : St} {c sd val : Addr} {d : Denom} {amt : Int} {e : Ext} (hI : Inv s)
+    (ho : extOk e ∧ e.share = amt) (h : doNvDelegate s c sd val d amt e = .ok s') : Inv s' := by
+  simp only [doNvDelegate] at h
+  split at h; · simp at h
+  rename_i hcv
+  split at h; · simp at h
+  split at h; · simp at h
+  obtain ⟨locked, hl, h⟩ := Bank.bind_ok h
+  split at h; · simp at h
+  rename_i hb
+  split at h; · simp at h
+  rename_i hneg
+  split at h; · simp at h
+  rename_i dv df htd
+  split at h; · simp at h
+  rename_i hval
+  split at h; · simp at h
+  obtain ⟨b1, hb1, h⟩ := Bank.bind_ok h
+  obtain ⟨b2, hb2, h⟩ := Bank.bind_ok h
+  obtain ⟨b3, hb3, h⟩ := Bank.bind_ok h
+  obtain ⟨b4, hb4, h⟩ := Bank.bind_ok h
+  obtain ⟨b5, hb5, h⟩ := Bank.bind_ok h
+  simp only [Res.ok.injEq] at h
+  subst h
+  obtain ⟨⟨hrf, hrb⟩, hsh⟩ := ho
+  have ha : 0 ≤ amt := by omega
+  obtain ⟨x, x0, xa, xm, xf, edv, edf, anz, able⟩ := trackDel_facts ha htd
+  have hv : s.variant = .nv := by
+    simp only [Bool.or_eq_true, Bool.not_eq_true', decide_eq_true_eq, not_or] at hcv
+    have := hcv.2; simpa using this
+  have hcr : s.created = true := by
+    simp only [Bool.or_eq_true, Bool.not_eq_true', decide_eq_true_eq, not_or] at hcv
+    have := hcv.1; simpa using this
+  have hmem : val ∈ s.vals := by simpa using hval
+  have hbl : blocked s = false := by simpa using hb
+  have hl' : lockedT s s.now = .ok locked := hl
+  have hr := lockedT_range hI hl'
+  obtain ⟨_, _, e1⟩ := Bank.send_ok hb1
+  have hconv := convReverse_other (by decide : scMod ≠ Convert.moduleAcc) hb2
+  obtain ⟨_, _, e3⟩ := Bank.send_ok hb3
+  obtain ⟨_, e4⟩ := Bank.mint_ok hb4
+  obtain ⟨_, _, e5⟩ := Bank.send_ok hb5
+  have sf : shareOf val ≠ "urise" := shareOf_ne_fee val
+  have sb : shareOf val ≠ "uvrise" := shareOf_ne_bond val
+  have sf2 : "urise" ≠ shareOf val := Ne.symm sf
+  have sb2 : "uvrise" ≠ shareOf val := Ne.symm sb
+  have fL : b5.bal lock fee = s.bank.bal lock fee + e.rewFee - amt := by
+    subst e5 e4 e3
+    have := hconv lock fee (by decide) (by decide)
+    simp [Bank.credit_bal, fee, bond, lock, scMod, stakingPool, sf, sf2, sb, sb2] at this ⊢
+    rw [this, e1]
+    simp [Bank.credit_bal, claim_bal, fee, bond, lock, scMod]; omega
+  have fS : b5.bal lock (shareOf val) = s.bank.bal lock (shareOf val) + e.share := by
+    subst e5 e4 e3
+    have := hconv lock (shareOf val) (by decide) (by decide)
+    simp [Bank.credit_bal, fee, bond, lock, scMod, stakingPool, sb, sf, sb2, sf2] at this ⊢
+    rw [this, e1]
+    simp [Bank.credit_bal, claim_bal, fee, bond, lock, scMod, sb, sf, sb2, sf2]
+  have fS' : ∀ w, w ≠ val → b5.bal lock (shareOf w) = s.bank.bal lock (shareOf w) := by
+    intro w hw
+    have hne : shareOf w ≠ shareOf val := fun c => hw (shareOf_inj c)
+    have sfw : shareOf w ≠ "urise" := shareOf_ne_fee w
+    have sbw : shareOf w ≠ "uvrise" := shareOf_ne_bond w
+    have sfw2 : "urise" ≠ shareOf w := Ne.symm sfw
+    have sbw2 : "uvrise" ≠ shareOf w := Ne.symm sbw
+    subst e5 e4 e3
+    have := hconv lock (shareOf w) (by decide) (by decide)
+    simp [Bank.credit_bal, fee, bond, lock, scMod, stakingPool, sbw, sfw, sbw2, sfw2, hne] at this ⊢
+    rw [this, e1]
+    simp [Bank.credit_bal, claim_bal, fee, bond, lock, scMod, sbw, sfw, sbw2, sfw2]
+  have fP : b5.bal "plock" bond = s.bank.bal "plock" bond := by
+    subst e5 e4 e3
+    have := hconv "plock" bond (by decide) (by decide)
+    simp [Bank.credit_bal, fee, bond, lock, scMod, stakingPool, sf, sf2, sb, sb2] at this ⊢
+    rw [this, e1]
+    simp [Bank.credit_bal, claim_bal, fee, bond, lock, scMod]
+  have hS : sumShares b5 s.vals = sumShares s.bank s.vals + e.share :=
+    sumShares_update _ _ _ val _ hI.nodup hmem fS fS'
+  have key : ∀ t l, s.now ≤ t → lockedT s t = .ok l → l ≤ locked := fun t l ht hlt => lockedT_antitone hI ht hl' hlt
+  have hbal : amt ≤ s.bank.bal lock fee := able
+  constructor
+  · exact hI.ol0
+  · exact hI.ut0
+  · show 0 ≤ dv; have := hI.dv0; omega
+  · show 0 ≤ df; have := hI.df0; omega
+  · show 0 ≤ b5.bal lock fee; rw [fL]; omega
+  · intro w
+    show 0 ≤ b5.bal lock (shareOf w)
+    by_cases hw : w = val
+    · subst hw; rw [fS]; have := hI.bS0 w; omega
+    · rw [fS' w hw]; exact hI.bS0 w
+  · show 0 ≤ b5.bal "plock" bond; rw [fP]; exact hI.bP0
+  · exact hI.st0
+  · exact hI.nodup
+  · exact hI.ubd0
+  · exact hI.sc0
+  · intro hc t l ht hlt
+    have h1 := hI.cover hc t l ht hlt
+    have h2 := key t l ht hlt
+    show l - dv ≤ b5.bal lock fee
+    rw [fL, edv]
+    rcases xf with hx | hx <;> omega
+  · have := hI.tracked
+    unfold actualDelegated at this ⊢
+    simp only [hv] at this ⊢
+    show dv + df ≤ sumShares b5 s.vals + totalEntries s.entries
+    rw [hS]; omega
+  · intro _ _
+    have := hI.liveNv hv hbl
+    show dv + df ≤ sumShares b5 s.vals + sumUnb lock s.scUnb
+    rw [hS]; omega
+  · exact hI.scHead
+  · exact hI.headUt
+  · intro hc t l ht hlt
+    have := hI.cust hc t l ht hlt
+    unfold custody at this ⊢
+    simp only [hv] at this ⊢
+    show l ≤ b5.bal lock fee + sumShares b5 s.vals + sumUnb lock s.scUnb
+    rw [fL, hS]; omega
+  · intro hc
+    have hc' : s.created = false := hc
+    rw [hcr] at hc'; simp at hc'
+
+theorem inv_nvUndelegate {s s' : St} {c sd val : Addr} {d : Denom} {amt : Int} {e : Ext} (hI : Inv s)
+    (ho : extOk e ∧ e.share = amt) (h : doNvUndelegate s c sd val d amt e = .ok s') : Inv s' := by
+  simp only [doNvUndelegate] at h
+  split at h; · simp at h
+  rename_i hcv
+  split at h; · simp at h
+  split at h; · simp at h
+  split at h; · simp at h
+  rename_i hpos
+  split at h; · simp at h
+  rename_i hval
+  split at h; · simp at h
+  obtain ⟨b1, hb1, h⟩ := Bank.bind_ok h
+  obtain ⟨b2, hb2, h⟩ := Bank.bind_ok h
+  obtain ⟨_, hle, eb1⟩ := Bank.send_ok hb1
+  obtain ⟨_, _, eb2⟩ := Bank.burn_ok hb2
+  simp only [Res.ok.injEq] at h
+  subst h eb2 eb1
+  obtain ⟨⟨hrf, hrb⟩, hsh⟩ := ho
+  have hv : s.variant = .nv := by
+    simp only [Bool.or_eq_true, Bool.not_eq_true', decide_eq_true_eq, not_or] at hcv
+    have := hcv.2; simpa using this
+  have hmem : val ∈ s.vals := by simpa using hval
+  have sf : shareOf val ≠ "urise" := shareOf_ne_fee val
+  have sb : shareOf val ≠ "uvrise" := shareOf_ne_bond val
+  have sf2 : "urise" ≠ shareOf val := Ne.symm sf
+  have sb2 : "uvrise" ≠ shareOf val := Ne.symm sb
+  rw [claim_share] at hle
+  -- the tracked balances after the handler
+  have fL : (((claim s.bank lock e).credit lock (shareOf val) (-e.share)).credit scMod (shareOf val) e.share |>.credit scMod (shareOf val) (-e.share) |>.addSupply (shareOf val) (-e.share)).bal lock fee
+      = s.bank.bal lock fee + e.rewFee := by
+    simp [Bank.credit_bal, claim_bal, fee, bond, lock, scMod, sf, sf2, sb, sb2]
+  have fS : (((claim s.bank lock e).credit lock (shareOf val) (-e.share)).credit scMod (shareOf val) e.share |>.credit scMod (shareOf val) (-e.share) |>.addSupply (shareOf val) (-e.share)).bal lock (shareOf val)
+      = s.bank.bal lock (shareOf val) + -e.share := by
+    simp [Bank.credit_bal, claim_bal, fee, bond, lock, scMod, sb, sf, sb2, sf2]
+  have fS' : ∀ w, w ≠ val → (((claim s.bank lock e).credit lock (shareOf val) (-e.share)).credit scMod (shareOf val) e.share |>.credit scMod (shareOf val) (-e.share) |>.addSupply (shareOf val) (-e.share)).bal lock (shareOf w)
+      = s.bank.bal lock (shareOf w) := by
+    intro w hw
+    have hne : shareOf w ≠ shareOf val := fun c => hw (shareOf_inj c)
+    have sfw : shareOf w ≠ "urise" := shareOf_ne_fee w
+    have sbw : shareOf w ≠ "uvrise" := shareOf_ne_bond w
+    have sfw2 : "urise" ≠ shareOf w := Ne.symm sfw
+    have sbw2 : "uvrise" ≠ shareOf w := Ne.symm sbw
+    simp [Bank.credit_bal, claim_bal, fee, bond, lock, scMod, sbw, sfw, sbw2, sfw2, hne]
+  have fP : (((claim s.bank lock e).credit lock (shareOf val) (-e.share)).credit scMod (shareOf val) e.share |>.credit scMod (shareOf val) (-e.share) |>.addSupply (shareOf val) (-e.share)).bal "plock" bond
+      = s.bank.bal "plock" bond := by
+    simp [Bank.credit_bal, claim_bal, fee, bond, lock, scMod, sf, sf2, sb, sb2]
+  have hS := sumShares_update s.bank _ s.vals val (-e.share) hI.nodup hmem fS fS'
+  obtain ⟨hd', hhd', hnil, hcons⟩ := head_addEntry (getEntries s.entries val) s.height (s.now + s.ut) amt
+  have hamt : 0 < amt := by omega
+  have hself := self_mem_setEntries s.entries val (addEntry (getEntries s.entries val) s.height (s.now + s.ut) amt)
+  -- the first entry of `val`'s new list ends no later than now + ut
+  have hdUt : hd'.endT ≤ s.now + s.ut := by
+    cases hes : getEntries s.entries val with
+    | nil => rw [hnil hes]
+    | cons x r =>
+      have hh0 : (getEntries s.entries val).head? = some x := by simp [hes]
+      rw [hcons x hh0]
+      have hm : (val, getEntries s.entries val) ∈ s.entries := getEntries_mem (by rw [hes]; simp)
+      exact hI.headUt _ hm x hh0
+  constructor
+  · exact hI.ol0
+  · exact hI.ut0
+  · exact hI.dv0
+  · exact hI.df0
+  · show 0 ≤ Bank.bal _ lock fee
+    rw [fL]; have := hI.bL0; omega
+  · intro w
+    show 0 ≤ Bank.bal _ lock (shareOf w)
+    by_cases hw : w = val
+    · subst hw; rw [fS]; omega
+    · rw [fS' w hw]; exact hI.bS0 w
+  · show 0 ≤ Bank.bal _ "plock" bond
+    rw [fP]; exact hI.bP0
+  · exact hI.st0
+  · exact hI.nodup
+  · exact hI.ubd0
+  · intro u hu
+    simp only [List.mem_append, List.mem_singleton] at hu
+    rcases hu with hu | hu
+    · exact hI.sc0 u hu
+    · subst hu; exact ⟨by show 0 ≤ amt; omega, rfl⟩
+  · intro hc t l ht hl
+    have := hI.cover hc t l ht hl
+    show l - s.DV ≤ Bank.bal _ lock fee
+    rw [fL]; omega
+  · have := hI.tracked
+    unfold actualDelegated at this ⊢
+    simp only [hv] at this ⊢
+    show s.DV + s.DF ≤ sumShares _ s.vals + totalEntries (setEntries s.entries val (addEntry (getEntries s.entries val) s.height (s.now + s.ut) amt))
+    rw [hS, total_setEntries, sumEntries_addEntry]; omega
+  · intro _ hb
+    have hb2 := (blocked_nv_false (s := { s with bank := _, scUnb := s.scUnb ++ [⟨lock, amt, s.now + s.ut⟩], entries := setEntries s.entries val (addEntry (getEntries s.entries val) s.height (s.now + s.ut) amt) }) hv).1 hb
+    have hnew : s.now < hd'.endT := hb2 _ hself hd' hhd'
+    have hbs : blocked s = false := (blocked_nv_false hv).2 (fun p hp h0 hh0 => by
+      rcases mem_old_setEntries (v := val) (l := addEntry (getEntries s.entries val) s.height (s.now + s.ut) amt) hp with hm | hm
+      · exact hb2 p hm h0 hh0
+      · rw [hm] at hh0
+        have e := hcons h0 hh0
+        omega)
+    have := hI.liveNv hv hbs
+    show s.DV + s.DF ≤ sumShares _ s.vals + sumUnb lock (s.scUnb ++ [⟨lock, amt, s.now + s.ut⟩])
+    rw [hS, sumUnb_append]; simp; omega
+  · intro u hu
+    simp only [List.mem_append, List.mem_singleton] at hu
+    rcases hu with hu | hu
+    · obtain ⟨p, hp, h0, hh0, hle0⟩ := hI.scHead u hu
+      rcases mem_old_setEntries (v := val) (l := addEntry (getEntries s.entries val) s.height (s.now + s.ut) amt) hp with hm | hm
+      · exact ⟨p, hm, h0, hh0, hle0⟩
+      · rw [hm] at hh0
+        refine ⟨_, hself, hd', hhd', ?_⟩
+        rw [hcons h0 hh0]; exact hle0
+    · subst hu
+      exact ⟨_, hself, hd', hhd', hdUt⟩
+  · intro p hp h0 hh0
+    show h0.endT ≤ s.now + s.ut
+    rcases mem_setEntries hp with hm | hm
+    · exact hI.headUt p hm h0 hh0
+    · rw [hm] at hh0
+      have : h0 = hd' := by
+        have : (addEntry (getEntries s.entries val) s.height (s.now + s.ut) amt).head? = some h0 := hh0
+        rw [hhd'] at this; exact (Option.some.inj this).symm
+      rw [this]; exact hdUt
+  · intro hc t l ht hl
+    have := hI.cust hc t l ht hl
+    unfold custody at this ⊢
+    simp only [hv] at this ⊢
+    show l ≤ Bank.bal _ lock fee + sumShares _ s.vals + sumUnb lock (s.scUnb ++ [⟨lock, amt, s.now + s.ut⟩])
+    rw [fL, hS, sumUnb_append]; simp; omega
+  · intro hc
+    simp only [Bool.or_eq_true, Bool.not_eq_true', decide_eq_true_eq, not_or] at hcv
+    have h1 := hcv.1
+    have hc' : s.created = false := hc
+    rw [hc'] at h1; simp at h1
+
 end Sunrise.C12MV
